@@ -54,6 +54,11 @@ def corpus():
           mk_v2w([[0.0, 2.0, float("nan"), 4.0, 1e-16, 1e-15, 2e-15]], "v2w-corpus"),
           mk_v2w([[1.0, 2.0, 1e-7, 4.0], [3e-7, 0.5, 2.0]], "v2w-tuple-tol", 1e-6, 0), mk_v2w([[1.0, 2.0, 1e-7, 4.0], [3e-7, 0.5, 2.0]], "v2w-tuple-tol", 1e-6, 1),
           mk_v2w([[0.0, 0.0]], "v2w-all-zero"), mk_v2w([[float("nan")]], "v2w-nan"), mk_v2w([[5.0]], "v2w-single")]
+    # readings on a high level with a small spread (absolute gravity, heights above the ellipsoid): the variances are those of the SPREAD
+    for lvl in (2.0 ** 20, -2.0 ** 23):
+        hi1, hi2 = [lvl + v / 8 for v in d1], [lvl + v / 4 for v in d2]
+        cs.append(mk_bm([es, ns], [7], [hi1, hi2], [w1, w2], [0, 4, 0, 2], None, [2.0, 2.0], "spacing", False, True, False, "corpus-weighted-variance-high-level"))
+        cs.append(mk_bm([es, ns], [7], [hi1], None, [0, 4, 0, 2], None, [2.0, 2.0], "spacing", False, True, False, "corpus-noweights-high-level"))
     return cs
 
 
@@ -84,6 +89,9 @@ def generate(rng, tier):
         coords = [es, ns] + ([B.values(rng, npts)] if rng.random() < 0.3 else [])
         ncomp = rng.choice([1, 1, 2, 3])
         data = [B.values(rng, npts) for _ in range(ncomp)]
+        if rng.random() < 0.15:      # a high level with a small spread
+            lvl = rng.choice([-1.0, 1.0]) * 2.0 ** rng.choice([17, 20, 23])
+            data = [[lvl + v / rng.choice([1, 8]) for v in comp] for comp in data]
         mode = rng.choice(["none", "none", "unc", "wvar", "unc-noweights", "unc-noweights-tuple", "none-tuple", "unc-constw", "wvar-constw"])
         weights = [B.pos_weights(rng, npts) for _ in range(ncomp)] if mode in ("unc", "wvar") else None
         if mode.endswith("-constw"):     # all data share one uncertainty / unit weights: still "weights given"
@@ -211,12 +219,15 @@ def oracle(case, io):
             means.append(mu)
             variances.append(var)
         expw = _v2w_expected(variances)
+        # round-off of a two-pass variance: the mean is good to eps * level, so a variance of spread^2 (spread >= 1/8 here) is good to
+        # about eps * level / spread relatively
+        wtol = max(1e-8, 1.2e-13 * max(abs(x) for x in comp))
         for pos, lab in enumerate(gr):
             if not C.close(od[c][pos], means[pos], 1e-10, max(1.0, abs(float(means[pos])))):
                 return f"block {lab} component {c}: mean {od[c][pos]} != {float(means[pos])}"
             if variances[pos] > 0 and variances[pos] < F(1, 10**12):
                 continue   # float variance may fall on either side of the tolerance
-            if not C.close(ow[c][pos], expw[pos], 1e-8):
+            if not C.close(ow[c][pos], expw[pos], wtol):
                 return (f"block {lab} component {c}: weight {ow[c][pos]} != {float(expw[pos])} "
                         f"({'sum-of-weights' if unc else 'min variance / variance'} rule; variance {float(variances[pos])})")
         if not all(0 < x <= 1 for x in ow[c]):
